@@ -157,6 +157,7 @@ type c10Client struct {
 	sent       int
 	transcript [][]c10Resp // per request: the responses seen in the phase of the request
 	exempt     bool
+	handshake  func(ctx context.Context) error // dtls: scripted handshake of this client (nil: completes at once)
 	// stream / dtls
 	sc *SimConn
 	pc *SimPacketConn
@@ -342,6 +343,9 @@ func (w *c10World) connect(c *c10Client) {
 	case "dtls":
 		pc := NewPacketConn(w.e, w.srvAddr, c.addr) // the server's end: local = server, remote = client
 		c.pc = pc
+		if c.handshake != nil {
+			pc.Handshake = c.handshake
+		}
 		w.lis.Connect(pc)
 	}
 }
